@@ -26,8 +26,13 @@ def fs(fr):
     return repr(float(fr))
 
 
-def gen_case(rng, kind, align, slice_):
+PCT_KINDS = ('nested', 'symbol', 'use-svg')
+
+
+def gen_case(rng, kind, align, slice_, mode='rand'):
     # aspect ratios from 1:50 to 50:1, negative origins
+    # mode 'same': the viewBox size equals the viewport size (scale exactly 1, only the origin moves);
+    # mode 'pct': the viewport size is written as a percentage of the 600x600 root viewport
     vw = dy(rng, 1, 400)
     vh = vw * Fraction(rng.choice([1, 2, 3, 7, 20, 50]), rng.choice([1, 2, 3, 7, 20, 50]))
     vh = max(Fraction(1, 8), Fraction(int(vh * 8), 8))
@@ -37,33 +42,57 @@ def gen_case(rng, kind, align, slice_):
     H = max(Fraction(1, 8), Fraction(int(W * Fraction(rng.choice([1, 2, 5, 9, 30]), rng.choice([1, 2, 5, 9, 30])) * 8), 8))
     X = dy(rng, -50, 50)
     Y = dy(rng, -50, 50)
-    return dict(kind=kind, align=align, slice=slice_, vb=[vx, vy, vw, vh], W=W, H=H, X=X, Y=Y,
+    A = dy(rng, 1, 300)
+    B = dy(rng, 1, 300)
+    pct = None
+    if mode == 'same':
+        if rng.below(4) == 0:
+            vh = vw
+        W, H = vw, vh
+        A, B = vw, vh
+        if vx == 0 and vy == 0:
+            vx = Fraction(-7, 2)
+    elif mode == 'pct' and kind in PCT_KINDS:
+        pw = dy(rng, 1, 80)
+        ph = rng.choice([pw, dy(rng, 1, 80), Fraction(100), Fraction(50)])
+        pct = (pw, ph)
+        W, H = pw * 6, ph * 6
+    return dict(kind=kind, align=align, slice=slice_, vb=[vx, vy, vw, vh], W=W, H=H, X=X, Y=Y, mode=mode, pct=pct,
+                none_suffix=rng.choice(['', ' meet']),
                 pcu=rng.choice(['', ' patternContentUnits="userSpaceOnUse"', ' patternContentUnits="objectBoundingBox"']),
                 href_split=rng.choice(['tot', 'oto', 'tto', 'ott', 'oot', 'too']),
-                over=rng.choice(['w', 'h', 'wh', '']), A=dy(rng, 1, 300), B=dy(rng, 1, 300),
+                over=rng.choice(['w', 'h', 'wh', '']), A=A, B=B,
                 dpi=rng.choice([72, 96, 192, 300]), unit=rng.choice(['in', 'pt', 'pc']))
 
 
 def par(c):
     if c['align'] == 'none':
-        return 'none'
+        return 'none' + (' slice' if c['slice'] else c.get('none_suffix', ''))
     return c['align'] + (' slice' if c['slice'] else ' meet')
+
+
+def wh(c):
+    """the viewport width / height as written in the document"""
+    if c.get('pct') and c['kind'] in PCT_KINDS:
+        return fs(c['pct'][0]) + '%', fs(c['pct'][1]) + '%'
+    return fs(c['W']), fs(c['H'])
 
 
 def make_doc(c):
     vb = ' '.join(fs(v) for v in c['vb'])
     k = c['kind']
+    sW, sH = wh(c)
     if k == 'root':
         return ('<svg %s width="%s" height="%s" viewBox="%s" preserveAspectRatio="%s">%s</svg>'
                 % (NS, fs(c['W']), fs(c['H']), vb, par(c), PROBE))
     if k == 'nested':
         return ('<svg %s width="600" height="600"><svg x="%s" y="%s" width="%s" height="%s" viewBox="%s" '
                 'preserveAspectRatio="%s" overflow="visible">%s</svg></svg>'
-                % (NS, fs(c['X']), fs(c['Y']), fs(c['W']), fs(c['H']), vb, par(c), PROBE))
+                % (NS, fs(c['X']), fs(c['Y']), sW, sH, vb, par(c), PROBE))
     if k == 'symbol':
         return ('<svg %s width="600" height="600"><symbol id="s" viewBox="%s" preserveAspectRatio="%s" overflow="visible">%s</symbol>'
                 '<use xlink:href="#s" x="%s" y="%s" width="%s" height="%s"/></svg>'
-                % (NS, vb, par(c), PROBE, fs(c['X']), fs(c['Y']), fs(c['W']), fs(c['H'])))
+                % (NS, vb, par(c), PROBE, fs(c['X']), fs(c['Y']), sW, sH))
     if k == 'pattern':
         return ('<svg %s width="600" height="600"><pattern id="p" patternUnits="userSpaceOnUse" x="%s" y="%s" width="%s" height="%s" '
                 'viewBox="%s" preserveAspectRatio="%s"%s>%s</pattern><rect width="500" height="500" fill="url(#p)"/></svg>'
@@ -94,9 +123,9 @@ def make_doc(c):
         # a `use` overriding none / one / both of the referenced svg's width and height
         ov = ''
         if 'w' in c['over']:
-            ov += ' width="%s"' % fs(c['W'])
+            ov += ' width="%s"' % sW
         if 'h' in c['over']:
-            ov += ' height="%s"' % fs(c['H'])
+            ov += ' height="%s"' % sH
         return ('<svg %s width="600" height="600"><defs><svg id="t" width="%s" height="%s" viewBox="%s" preserveAspectRatio="%s" '
                 'overflow="visible">%s</svg></defs><use xlink:href="#t" x="%s" y="%s"%s/></svg>'
                 % (NS, fs(c['A']), fs(c['B']), vb, par(c), PROBE, fs(c['X']), fs(c['Y']), ov))
@@ -369,9 +398,12 @@ def run(ctx):
     cases = []
     for kind in KINDS:
         for al in ALIGNS:
-            for sl in ([False] if al == 'none' else [False, True]):
+            for sl in [False, True]:
                 for _ in range(reps):
                     cases.append(gen_case(rng, kind, al, sl))
+                cases.append(gen_case(rng, kind, al, sl, 'same'))
+                if kind in PCT_KINDS:
+                    cases.append(gen_case(rng, kind, al, sl, 'pct'))
     docs = [make_doc(c) for c in cases]
     outs = ctx.rvh_batch(binp, 'dump', [("dpi=%d" % c['dpi'] if c['kind'] == 'image-dpi' else "-") + "\t" + d for c, d in zip(cases, docs)])
     coq_items = []
